@@ -59,14 +59,17 @@ claim('C09', 'other', 'contract-based deductive verification on an abstract host
 
 for _k in ('C03', 'C06', 'C13', 'C18', 'C19'):
     NA.pop(_k, None)
-claim('C03', 'other', 'contract-based deductive verification of the merge keys: MergeDuplicateGates._build_signature (nested function extracted from the AST) and the MergeUnaryOperators operand getter; bounded stand-in for whole passes',
-      'Proved for every gate type, arities <=3 and every aliasing of operands: equal signatures imply equal type and equal value of OP on the operand lists (what makes merging sound), different types never share a signature; '
-      'the unary operand getter reads exactly the operand OP depends on. Traversal-driven rebuilds, interface/argument preservation, pipelines and cleanup are bounded-only.',
-      T_ASSUME + 'axiom of sorted() on labels.', 'DESIGN.md §6 C03/C18')
-claim('C18', 'other', 'contract-based deductive verification of the duplicate-detection key (normal-form direction); bounded stand-in for normal forms and pipeline algebra',
+claim('C03', 'other', 'contract-based deductive verification of RemoveRedundantGates on an arbitrary circuit (dfs through its contract, hook calls cut by an invariant, filter views for the input comprehensions) and of the merge keys: MergeDuplicateGates._build_signature (nested function extracted from the AST), MergeUnaryOperators operand getter; bounded stand-in for the other passes',
+      'RemoveRedundantGates._transform, both settings of allow_inputs_removal, proved for every well-formed circuit whose INPUT gates carry no operands: the result is a new circuit whose gates are exactly the gates reachable from the outputs (plus every input unless removal was requested) with unchanged types and operand tuples, '
+      'the same outputs in the same order, the kept inputs in their original order (all of them without removal), well formed, and the argument is not modified (rule R2 then gives the identical truth table). '
+      'Merge keys, proved for every gate type, arities <=3 and every aliasing of operands: equal signatures imply equal type and equal value of OP on the operand lists (what makes merging sound), different types never share a signature; the unary operand getter reads exactly the operand OP depends on. '
+      'The rebuilds of the other passes, pipelines, cleanup, "never more gates" and the public transform() wrapper are bounded-only.',
+      T_ASSUME + 'axiom of sorted() on labels; contract of Circuit.dfs (proved under C20); semantics of the filter comprehension (order-preserving sub-list); rule R2.', 'DESIGN.md §6 C03/C18')
+claim('C18', 'other', 'contract-based deductive verification of RemoveRedundantGates (exactly the reachable gates) and of the duplicate-detection key (normal-form direction); bounded stand-in for the other normal forms and the pipeline algebra',
+      'Proved for every well-formed circuit: RemoveRedundantGates returns exactly the gates reachable from the outputs, plus all inputs unless their removal was requested, with unchanged definitions (so applying it twice changes nothing more). '
       'Proved: gates of equal type with equal operand lists, or equal up to order for symmetric types, get equal signatures (arities <=3, all aliasing), the local fact behind the MergeDuplicateGates normal form. '
-      'RRG reachability/idempotence, MEG/MUO normal forms and pipeline = sequencing are bounded-only.',
-      T_ASSUME + 'axiom of sorted() on labels.', 'DESIGN.md §6 C03/C18')
+      'MEG/MUO normal forms, idempotence runs and pipeline = sequencing are bounded-only.',
+      T_ASSUME + 'axiom of sorted() on labels; contract of Circuit.dfs (proved under C20).', 'DESIGN.md §6 C03/C18')
 claim('C06', 'other', 'contract-based deductive verification of clause families of the SAT encoding (real methods run on a CNF view, all valuations); bounded brute force for global soundness/completeness',
       'Proved from the real source: _add_exactly_one_of is "exactly one" for 1..5 literals; fix_gate(gate_type=t) forces the table of OP(t) for every binary gate type; fix_gate with a single predecessor and forbid_wire exclude exactly the documented predecessor pairs. '
       'The global theorem (model exists iff circuit exists, under constraints) is bounded: brute force over small shapes with the z3-backed solver shim.',
